@@ -567,25 +567,31 @@ fn c08_after_connack_once(bytes: &[u8], frag: bool, rx_size: usize) -> CaseOut {
 
 /// Bytes in place of the CONNACK.
 pub fn c08_as_connack(bytes: &[u8]) -> CaseOut {
-    let out = c08_as_connack_once(bytes);
+    c08_as_connack_cfg(bytes, C08_RX, "mcx")
+}
+
+/// `client_id` empty = none configured (the broker has to assign one).
+pub fn c08_as_connack_cfg(bytes: &[u8], rx_size: usize, client_id: &str) -> CaseOut {
+    let out = c08_as_connack_once(bytes, rx_size, client_id);
     if out.viol.iter().any(|(s, _)| s.starts_with("C08:connack-blocked")) && matches!(mr::fixed_header(bytes), Err(mr::Bad::Malformed(MalClass::BadVarint, _))) {
         let mut padded = bytes.to_vec();
-        padded.extend_from_slice(&[0u8; C08_RX]);
-        return c08_as_connack_once(&padded);
+        padded.extend_from_slice(&vec![0u8; rx_size]);
+        return c08_as_connack_once(&padded, rx_size, client_id);
     }
     out
 }
 
-fn c08_as_connack_once(bytes: &[u8]) -> CaseOut {
+fn c08_as_connack_once(bytes: &[u8], rx_size: usize, client_id: &str) -> CaseOut {
     guarded("C08", || {
-        let bench = Bench::new(true, BrokerCfg::default(), C08_RX);
-        let mut rx = [0u8; C08_RX];
+        let bench = Bench::new(true, BrokerCfg::default(), rx_size);
+        let mut rx = vec![0u8; rx_size];
         let mut tx = [0u8; 96];
-        let cfg = ConfigBuilder::new(Buffers::new(&mut rx, &mut tx))
-            .client_id("mcx")
-            .unwrap()
+        let mut cfg = ConfigBuilder::new(Buffers::new(&mut rx, &mut tx))
             .keepalive_interval(7)
             .session_expiry_interval(100);
+        if !client_id.is_empty() {
+            cfg = cfg.client_id(client_id).unwrap();
+        }
         let mut session = Session::new(cfg);
         let (io, id) = bench.io();
         bench.push(id, bytes);
@@ -594,7 +600,7 @@ fn c08_as_connack_once(bytes: &[u8]) -> CaseOut {
         let mut flag = |rule: &str, ctx: String, detail: String| {
             viol.push((format!("C08:{}:{}", rule, ctx), format!("{} [input {}]", detail, mr::hex(bytes))))
         };
-        let too_large = matches!(mr::fixed_header(bytes), Ok(fh) if fh.total() > C08_RX);
+        let too_large = matches!(mr::fixed_header(bytes), Ok(fh) if fh.total() > rx_size);
         let class = if too_large {
             SClass::Malformed(MalClass::TooLarge, "larger than the receive buffer", 0)
         } else {
@@ -629,7 +635,9 @@ fn c08_as_connack_once(bytes: &[u8]) -> CaseOut {
                     }
                 }
                 let auth = props.iter().any(|p| p.id == 0x15 || p.id == 0x16);
-                let id_too_long = aid.as_ref().is_some_and(|a| a.len() > 64);
+                // a conformant broker assigns an identifier only to a client that sent none; to such a client it
+                // may assign one of any length
+                let id_too_long = !client_id.is_empty() && aid.as_ref().is_some_and(|a| a.len() > 64);
                 if *reason != 0 {
                     match res {
                         // (the packet was classified valid, so `reason` is one of the codes MQTT 5 defines for CONNACK)
@@ -652,7 +660,7 @@ fn c08_as_connack_once(bytes: &[u8]) -> CaseOut {
                             let want_q = rm.unwrap_or(65535).min(8);
                             let want_ka = ka.map(|k| k as u64 * 1000).unwrap_or(7000);
                             let cid = conn.session().verif_client_id().as_bytes().to_vec();
-                            let want_id = aid.clone().unwrap_or_else(|| b"mcx".to_vec());
+                            let want_id = aid.clone().unwrap_or_else(|| client_id.as_bytes().to_vec());
                             if rt.send_quota != want_q
                                 || rt.max_send_quota != want_q
                                 || rt.maximum_packet_size != mp
@@ -674,7 +682,12 @@ fn c08_as_connack_once(bytes: &[u8]) -> CaseOut {
                         Err(e) => {
                             let r = Res::from_err(&e);
                             outcome = format!("{:?}", r);
-                            flag("connack-valid-rejected", outcome.clone(), format!("valid CONNACK but connect returned {:?}", r));
+                            let ctx = if aid.as_ref().is_some_and(|a| a.len() > 64) {
+                                format!("{}-assigned-client-identifier-longer-than-64-bytes", outcome)
+                            } else {
+                                outcome.clone()
+                            };
+                            flag("connack-valid-rejected", ctx, format!("valid CONNACK but connect returned {:?}", r));
                         }
                     }
                 }
@@ -968,6 +981,54 @@ pub fn c08_wide_grammar() -> Vec<SPacket> {
     v
 }
 
+pub fn c08_wide_connack_grammar() -> Vec<SPacket> {
+    let mut v = Vec::new();
+    let pr = |id: u8, val: PVal| Prop { id, val };
+    let s = |n: usize| vec![b'i'; n];
+    for n in [1usize, 23, 36, 64, 65, 128, 200] {
+        v.push(SPacket::ConnAck { session_present: false, reason: 0, props: vec![pr(0x12, PVal::Str(s(n)))] });
+    }
+    let singles = vec![
+        pr(0x11, PVal::U32(0)),
+        pr(0x11, PVal::U32(u32::MAX)),
+        pr(0x21, PVal::U16(1)),
+        pr(0x21, PVal::U16(65535)),
+        pr(0x24, PVal::Byte(0)),
+        pr(0x24, PVal::Byte(1)),
+        pr(0x25, PVal::Byte(0)),
+        pr(0x25, PVal::Byte(1)),
+        pr(0x27, PVal::U32(1)),
+        pr(0x27, PVal::U32(u32::MAX)),
+        pr(0x22, PVal::U16(0)),
+        pr(0x22, PVal::U16(65535)),
+        pr(0x1F, PVal::Str(s(200))),
+        pr(0x1F, PVal::Str(vec![])),
+        pr(0x26, PVal::Pair(s(64), s(64))),
+        pr(0x28, PVal::Byte(0)),
+        pr(0x28, PVal::Byte(1)),
+        pr(0x29, PVal::Byte(0)),
+        pr(0x29, PVal::Byte(1)),
+        pr(0x2A, PVal::Byte(0)),
+        pr(0x2A, PVal::Byte(1)),
+        pr(0x13, PVal::U16(0)),
+        pr(0x13, PVal::U16(65535)),
+        pr(0x1A, PVal::Str(s(128))),
+        pr(0x1C, PVal::Str(s(128))),
+    ];
+    for p in &singles {
+        v.push(SPacket::ConnAck { session_present: false, reason: 0, props: vec![pr(0x12, PVal::Str(s(36))), p.clone()] });
+    }
+    // everything at once
+    let mut all = vec![pr(0x12, PVal::Str(s(36)))];
+    for p in &singles {
+        if !all.iter().any(|q: &Prop| q.id == p.id && p.id != 0x26) {
+            all.push(p.clone());
+        }
+    }
+    v.push(SPacket::ConnAck { session_present: false, reason: 0, props: all });
+    v
+}
+
 pub fn c08_connack_grammar() -> Vec<SPacket> {
     let mut v = Vec::new();
     let single: Vec<Prop> = vec![
@@ -1255,6 +1316,25 @@ pub fn c08(tier: Tier, caps: &Caps) -> Vec<FamilyReport> {
         &|i| c08_after_connack_rx(&wide[(i / 2) as usize], i % 2 == 1, WIDE_RX),
         &|i| json!({"phase": "after-connack", "bytes": mr::hex(&wide[(i / 2) as usize]), "fragmented": i % 2 == 1, "rx": WIDE_RX}),
     ));
+    // CONNACK boundary values for a client that configured no identifier, 300-byte buffer
+    let mut wc: Vec<Vec<u8>> = Vec::new();
+    for p in c08_wide_connack_grammar() {
+        let b = p.encode();
+        if tier == Tier::Quick {
+            wc.push(b);
+        } else {
+            wc.extend(mutations(&b));
+        }
+    }
+    out.push(sweep(
+        "C08-connack-boundary-values-no-client-id-configured",
+        "C08",
+        wc.len() as u64,
+        caps,
+        json!({"grammar": "CONNACK for a client that sent an empty identifier: Assigned Client Identifier of 1, 23, 36, 64, 65, 128 and 200 bytes; every CONNACK property at its smallest and largest legal value; long reason string, response information, server reference, user properties; thorough: every single-byte substitution, truncation and one trailing byte", "rx": WIDE_RX, "client_id": ""}),
+        &|i| c08_as_connack_cfg(&wc[i as usize], WIDE_RX, ""),
+        &|i| json!({"phase": "as-connack", "bytes": mr::hex(&wc[i as usize]), "rx": WIDE_RX, "client_id": ""}),
+    ));
     let mut cgram: Vec<Vec<u8>> = Vec::new();
     for p in c08_connack_grammar() {
         let b = p.encode();
@@ -1279,7 +1359,11 @@ pub fn replay_case(v: &Value) -> i32 {
     let out = if name.starts_with("C08") {
         let bytes = unhex(case["bytes"].as_str().unwrap_or(""));
         match case["phase"].as_str().unwrap_or("") {
-            "as-connack" => c08_as_connack(&bytes),
+            "as-connack" => c08_as_connack_cfg(
+                &bytes,
+                case["rx"].as_u64().map(|v| v as usize).unwrap_or(C08_RX),
+                case["client_id"].as_str().unwrap_or("mcx"),
+            ),
             "after-connack-bytewise" => c08_after_connack(&bytes, true),
             _ => c08_after_connack_rx(
                 &bytes,
